@@ -109,7 +109,9 @@ fn precision(m: &Mon, r: &mut Rng) -> usize {
         26..=33 => 20 + r.usize(80),
         34..=37 => *r.pick(&[100usize, 200]),
         38 => if m.thorough() { *r.pick(&[500usize, 1000]) } else { 200 },
-        _ => if m.thorough() && r.chance(1, 8) { 3000 } else { 300 },
+        // (quick: one case in a thousand at 2200 digits, where guard digits that grow like sqrt(p) or log(p) start
+        // to differ from constants; thorough: one in 320 at 3000)
+        _ => if m.thorough() && r.chance(1, 8) { 3000 } else if !m.thorough() && r.chance(1, 25) { 2200 } else { 300 },
     }
 }
 
@@ -494,7 +496,7 @@ fn main() {
         prop: "C11",
         quick_cases: 200_000,
         thorough_cases: 3_000_000,
-        rule: "6 modes x bases {2,10,3,16,36} (round robin) x precisions 1..3, 4..17, 17/24/34/53/64, 20..100, 100/200/300 (thorough 500/1000/3000); arguments s*B^e with 1..p digits: exp with |x| from B^-1000 to 2*10^4 (thorough 2*10^6), exp_m1 incl. the no-scaling branch, ln from B^-1000 to B^1000 and at 1 +- B^-k (cancellation) and exactly 1, ln_1p down to B^-1000 and near -1, powi with exponents 0, +-1, up to +-5000 (thorough +-10^6) incl. 2^k boundaries, powf with integer-valued, tiny and general exponents; unlimited precision must panic. The true value is enclosed by an outward-rounded interval evaluation (own atanh/Taylor series with explicit remainder bounds, self-tested against f64 each run, validated against mpmath at development time) refined up to 8x the working precision; a case that stays undecided is counted inconclusive. Rational true values (ln 1, x^n when cheap, powf with small integer exponents) are judged exactly, incl. the Exact flag.",
+        rule: "6 modes x bases {2,10,3,16,36} (round robin) x precisions 1..3, 4..17, 17/24/34/53/64, 20..100, 100/200/300, quick 2200 in one case per thousand (thorough 500/1000/3000); arguments s*B^e with 1..p digits: exp with |x| from B^-1000 to 2*10^4 (thorough 2*10^6), exp_m1 incl. the no-scaling branch, ln from B^-1000 to B^1000 and at 1 +- B^-k (cancellation) and exactly 1, ln_1p down to B^-1000 and near -1, powi with exponents 0, +-1, up to +-5000 (thorough +-10^6) incl. 2^k boundaries, powf with integer-valued, tiny and general exponents; unlimited precision must panic. The true value is enclosed by an outward-rounded interval evaluation (own atanh/Taylor series with explicit remainder bounds, self-tested against f64 each run, validated against mpmath at development time) refined up to 8x the working precision; a case that stays undecided is counted inconclusive. Rational true values (ln 1, x^n when cheap, powf with small integer exponents) are judged exactly, incl. the Exact flag.",
         assumptions: &["ulp of the true value; when the enclosure straddles a power of the base the larger ulp is used for the violation test", "transcendental results are never Exact except at the trivial points (Lindemann-Weierstrass)"],
         required: &[("exp", false), ("exp_m1", false), ("ln", false), ("ln_1p", false), ("powi", false), ("powf", false), ("unlimited", false), ("LOOP_EXP", false), ("LOOP_LN", false)],
         case,
